@@ -193,7 +193,16 @@ def run_leg(prop, tier, seed, leg, bins, logdir):
             with open(out) as f:
                 results.append(json.load(f))
             continue
-        # the worker died
+        # the worker died; violations it had recorded before are in the
+        # checkpoint it writes when a signature occurs for the first time
+        if os.path.exists(out):
+            try:
+                with open(out) as f:
+                    part = json.load(f)
+                part["inconclusive"] = (part.get("inconclusive") or [])
+                results.append(part)
+            except Exception:
+                pass
         last_case = None
         for line in errtxt.splitlines():
             if line.startswith("CASE "):
